@@ -6,6 +6,7 @@ from .. import terms as tm
 from ..mirror import Mirror
 from ..model import AnalysisError
 from .common import ob, need, call_name, roles, is_lit, lit, resolve_ite_free
+from . import common
 from .. import symeval
 from . import c06, c11
 
@@ -385,6 +386,7 @@ def rule_hitwindow(ctx):
 
 
 RULES = [
+    ("C02.VELFIT", 1, common.shared("c01", "rule_valueden", "C02.VELFIT", keep=lambda o: o.construct.startswith("transcription_velocity.match_notes:"))),
     ("C02.TRIMFORM", 8, rule_trimform),
     ("C02.HITWINDOW", 4, rule_hitwindow),
     ("C02.FIRSTN", 4, rule_firstn),
